@@ -43,12 +43,24 @@ pub fn grease(id: u64) -> bool {
         if !ON {
             return spec::is_grease(id);
         }
-        let mut i = 0;
-        while i < SLOTS {
-            if i < N && IDS[i] == id {
-                return VALS[i];
-            }
-            i += 1;
+        // (loop-free lookup so that harnesses can use small unwinding bounds)
+        if N > 0 && IDS[0] == id {
+            return VALS[0];
+        }
+        if N > 1 && IDS[1] == id {
+            return VALS[1];
+        }
+        if N > 2 && IDS[2] == id {
+            return VALS[2];
+        }
+        if N > 3 && IDS[3] == id {
+            return VALS[3];
+        }
+        if N > 4 && IDS[4] == id {
+            return VALS[4];
+        }
+        if N > 5 && IDS[5] == id {
+            return VALS[5];
         }
         assert!(N < SLOTS, "oracle table too small for this harness");
         let r: bool = kani::any();
